@@ -757,6 +757,12 @@ func NeedsOptsOf(r *rng.R, v *OptVariant) *ach.File {
 }
 
 // NeedsOptsVariant applies one variant to a clone of f (nil: not applicable / not kept).
+// AllowBatchOnly lets batch-level variants store their options on the batches alone (file: none), one time in
+// four.  Only for checks of in-memory operations (segment, flatten, merge, reversal, create, purity): neither
+// the NACHA text nor the JSON document can carry options that sit on a batch only, so such a file is outside
+// the domain of the properties about those representations (C07, C17).
+var AllowBatchOnly = false
+
 func NeedsOptsVariant(r *rng.R, f *ach.File, v *OptVariant) (out *ach.File) {
 	defer func() {
 		if recover() != nil {
@@ -774,7 +780,7 @@ func NeedsOptsVariant(r *rng.R, f *ach.File, v *OptVariant) (out *ach.File) {
 	switch {
 	case deep:
 		ApplyOptsDeep(g, o)
-	case v.Level == "batch" && !v.Stale && r.Chance(1, 4):
+	case AllowBatchOnly && v.Level == "batch" && !v.Stale && r.Chance(1, 4):
 		// the options live on the batches only (Batch.SetValidation / what MergeFiles leaves per batch); the
 		// file carries none
 		for _, b := range g.Batches {
